@@ -11,6 +11,7 @@
     respects (single-target condition: C07). *)
 From mathcomp Require Import all_ssreflect all_algebra.
 From PV Require Import Outcome Fock Poly PolySem EDSpec HPart HPartSpec HPartProofs FockAdjoint Rotate RotateBridge.
+From PV Require ContainerHistory ContainerHistoryProofs.
 Import GRing.Theory.
 Local Open Scope ring_scope.
 
@@ -147,3 +148,22 @@ Theorem rotation_two_loops :
       end.
 Proof. exact HPartProofs.fop_fill_char. Qed.
 Print Assumptions rotation_two_loops.
+
+(** FieldOperatorContainer filled in several steps (model: theories/ContainerHistory.v -- prepareAll replaces / adds operators in state
+    Prepared, computeAll computes every creation operator that is not Computed and fills the annihilation operator from it):
+    after ANY history of prepareAll / computeAll calls that ends with computeAll, every operator some prepareAll asked for is Computed,
+    the creation operator is the one computed one by one ([single_cx i], for which rotation_formula_model holds) and the annihilation
+    operator is its adjoint (container_copy_is_adjoint, annihilation_is_adjoint); nothing else is in the container. *)
+Theorem container_history_complete :
+  forall (V : Type) (single_cx : nat -> V) (adjoint : V -> V) (n : nat) (h : list ContainerHistory.step) (i : nat),
+  ContainerHistory.requested n h i ->
+  ContainerHistory.get V i (ContainerHistory.run V single_cx adjoint n (List.app h (cons ContainerHistory.ComputeAll nil)))
+  = Some (ContainerHistory.mkEntry (Some (single_cx i)) (Some (adjoint (single_cx i)))).
+Proof. exact ContainerHistoryProofs.history_complete. Qed.
+Print Assumptions container_history_complete.
+
+Theorem container_history_nothing_else :
+  forall (V : Type) (single_cx : nat -> V) (adjoint : V -> V) (n : nat) (h : list ContainerHistory.step) (i : nat),
+  ~ ContainerHistory.requested n h i -> ContainerHistory.get V i (ContainerHistory.run V single_cx adjoint n h) = None.
+Proof. exact ContainerHistoryProofs.history_nothing_else. Qed.
+Print Assumptions container_history_nothing_else.
